@@ -237,3 +237,53 @@ def typed(cause):
         return cause
     else:
         return len(cause)
+
+
+class PduBase(object):
+    class PFB(object):
+        def __init__(self, fmt, nad, did, pni):
+            self.fmt, self.nad = fmt, nad
+            self.did = did
+            self.pni = pni
+
+    def __init__(self, pfb, did):
+        self.pfb = pfb
+        self.did = did
+
+    @classmethod
+    def mk(cls, data):
+        b = data[0]
+        pfb = cls.PFB(b >> 4, bool(b & 8), bool(b & 4), b & 3)
+        did = data.pop(0) if pfb.did else None
+        return cls(pfb, did)
+
+
+def batch3(key, data, cfg, step):
+    rev = key[7::-1] + key[15:7:-1] + key[:-4:-1] + key[::-1][0:1]
+    cfg[2:4] = key[0:3]
+    cfg[0] |= 0x40
+    lst = [0x02, step] + [0x00 for _ in range(3)] + 2 * [7]
+    lst.append(9)
+    pages = [(step + i) >> 2 for i in (1, 2, 3)]
+    nfcid, (a, b) = data[0:2], data[2:4]
+    tot = 0
+    for i in range(0, 10, step):
+        tot += i
+    for i in range(3):
+        tot += 1
+    for i in range(2):
+        tot += i
+    k = lst.index(9)
+    try:
+        z = data[5]
+    except IndexError:
+        raise ValueError("short")
+    else:
+        tot += z
+    if step is not 1:
+        tot += 100
+    return (rev, cfg, bytearray(lst), pages[0] != pages[1], nfcid, a + b, tot, k)
+
+
+def anyret(x):
+    return (x, 1) if x > 3 else (x, 2, 3)
